@@ -920,6 +920,12 @@ def audit_shared_state():
                     continue
                 if pat.search(line):
                     bad.append(f"{p}:{ln}: {line.strip()}")
+                # `unsafe` and raw mutable pointers are confined to the SIMD scorer and to utils::FromU32 on the tree the model
+                # was written for: anywhere else they may carry mutable state between workers behind the type system's back
+                elif (re.search(r"\bunsafe\b|\*mut\b|get_mut_unchecked|\bstatic\s+\w+\s*:", line)
+                      and not p.endswith(("raw_connector/scorer.rs", "src/utils.rs"))
+                      and not re.search(r"\bstatic\s+\w+\s*:\s*&'static\s+str|^\s*(pub\s+)?const\b", line)):
+                    bad.append(f"{p}:{ln}: {line.strip()}")
     if bad:
         return [("proof", "shared-state audit: the model assumes no shared mutable state, but the source now contains:\n" + "\n".join(bad),
                  "\n".join(bad))]
